@@ -9,8 +9,13 @@ import (
 	"fmt"
 	"strings"
 	"testing"
+	"time"
 
+	"github.com/go-i2p/common/data"
 	"github.com/go-i2p/common/destination"
+	"github.com/go-i2p/common/encrypted_leaseset"
+	"github.com/go-i2p/common/lease"
+	"github.com/go-i2p/common/lease_set2"
 	"github.com/go-i2p/common/router_identity"
 	"github.com/go-i2p/common/router_info"
 	"pgregory.net/rapid"
@@ -21,7 +26,7 @@ import (
 	"verif/internal/model"
 )
 
-const rule = "cases: pairs (A, B) of identities; A from a model encoding of every permitted supported key-type pair (NULL/KEY certificate, 0-40 excess certificate bytes, padding random/zero/0xff/repeating), obtained through ReadDestination, ReadRouterIdentity, ReadRouterInfo and the constructors; after A has been hashed and serialised once, a padding byte changed in place through the exported field, and the signing key replaced on a struct copy (hash, address, base64, Equals must follow the current bytes); B = A with one byte changed at any offset of the consumed bytes (kept when B still parses completely), a re-parse of A, or an independent identity. Oracle: Hash/IdentHash = SHA-256(model bytes) (crypto/sha256); Base32Address = own bit-level base32 of the hash, lower case, unpadded, 52 characters + .b32.i2p (60); Base64 decodes with the own base64 to the bytes; Equals/Equal <=> bytes equal; different bytes => different hash and address. Non-trivial: pair differs in padding, certificate payload or key bytes (B parsed); distinct by (A bytes, B bytes)."
+const rule = "cases: pairs (A, B) of identities; A from a model encoding of every permitted supported key-type pair (NULL/KEY certificate, 0-40 excess certificate bytes, padding random/zero/0xff/repeating), obtained through ReadDestination, ReadRouterIdentity, ReadRouterInfo and the constructors; after A was handed to CreateBlindedDestination, NewRouterIdentityFromKeysAndCert + AsDestination and NewLeaseSet2 it must still be the identity its bytes say; after A has been hashed and serialised once, a padding byte changed in place through the exported field, and the signing key replaced on a struct copy (hash, address, base64, Equals must follow the current bytes); B = A with one byte changed at any offset of the consumed bytes (kept when B still parses completely), a re-parse of A, or an independent identity. Oracle: Hash/IdentHash = SHA-256(model bytes) (crypto/sha256); Base32Address = own bit-level base32 of the hash, lower case, unpadded, 52 characters + .b32.i2p (60); Base64 decodes with the own base64 to the bytes; Equals/Equal <=> bytes equal; different bytes => different hash and address. Non-trivial: pair differs in padding, certificate payload or key bytes (B parsed); distinct by (A bytes, B bytes)."
 
 func TestMain(m *testing.M) { ev.Main(m, "C07", rule) }
 
@@ -267,6 +272,43 @@ func afterUse(c Case, idA model.Ident, encA []byte, r *ev.Rec) error {
 			return fmt.Errorf("%s: Equals is true although the serialisations differ", what)
 		}
 		return nil
+	}
+	// the identity is handed to other packages (blinding, the router-identity wrappers,
+	// a LeaseSet2 constructor); afterwards it must still be what its wire bytes say
+	{
+		d, _, err := destination.ReadDestination(append([]byte{}, encA...))
+		if err == nil {
+			handed := ""
+			if idA.SigType == 7 || idA.SigType == 11 {
+				if _, berr := encrypted_leaseset.CreateBlindedDestination(d, model.Fill(32, c.A.KeySeed+3), time.Unix(1700000000, 0)); berr == nil {
+					handed += " CreateBlindedDestination"
+				}
+			}
+			if idA.SigType != 11 {
+				if ri, rerr := router_identity.NewRouterIdentityFromKeysAndCert(d.KeysAndCert); rerr == nil {
+					ad := ri.AsDestination()
+					ad.Hash()
+					handed += " NewRouterIdentityFromKeysAndCert+AsDestination"
+				}
+			}
+			if l2, lerr := lease.NewLease2(data.Hash{1}, 1, time.Unix(1900000000, 0)); lerr == nil {
+				keys := []lease_set2.EncryptionKey{{KeyType: 4, KeyLen: 32, KeyData: model.Fill(32, 2)}}
+				if ls, nerr := lease_set2.NewLeaseSet2(d, 1700000000, 600, 0, nil, data.Mapping{}, keys, []lease.Lease2{*l2}, nil); nerr == nil {
+					ls.Bytes()
+					handed += " NewLeaseSet2"
+				}
+			}
+			sum := sha256.Sum256(encA)
+			b, berr := d.Bytes()
+			h, herr := d.Hash()
+			fresh, _, _ := destination.ReadDestination(append([]byte{}, encA...))
+			if berr != nil || herr != nil || !bytes.Equal(b, encA) || h != sum || !d.Equals(&fresh) || !fresh.Equals(&d) {
+				return fmt.Errorf("after the destination was handed to%s it no longer is the identity it was parsed from (Bytes equal %v, hash equal %v, Equals(fresh parse) %v)", handed, bytes.Equal(b, encA), h == sum, d.Equals(&fresh))
+			}
+			if handed != "" {
+				r.Class("handed-to-other-packages")
+			}
+		}
 	}
 	padLen := 384 - len(idA.Enc) - len(idA.Sig)
 	if padLen > 0 {
